@@ -60,7 +60,10 @@ def extra_terms(tier):
 
 
 def all_terms(tier):
-    return list(universe(tier)) + extra_terms(tier)
+    # (the parametrised user types of the universe substitute to themselves - what a user type
+    # does with a substituted value is the user's business - so they are left out here)
+    return [t for t in list(universe(tier)) + extra_terms(tier)
+            if "'mult'" not in repr(t) and "'nmult'" not in repr(t)]
 
 
 def kept_keys_ok(s, r, v):
